@@ -10,8 +10,10 @@
    the theorems apply verbatim (C20_qc_* below).
 
    Not proved (tested on the implementation only): RotMatToVec o RotVecToMat = id below a half turn
-   beyond its algebraic core (C20_rotvec_trace / C20_rotvec_axis), the rotation part of
-   CalcAverageRotation / CalcMedianRotation on copies, what Miniball.hpp actually returns
+   beyond its algebraic core (C20_rotvec_trace / C20_rotvec_axis / C20_rotvec_skew_zero /
+   C20_rotvec_half_turn_sq); CalcAverageRotation / CalcMedianRotation on copies are proved for the
+   two-pass SCHEME (C20_avg_rotation_of_copies, C20_median_rotation_of_copies) with RotMatToVec /
+   RotVecToMat as parameters whose orthonormality and round trip on the rebased matrix are hypotheses, what Miniball.hpp actually returns
    (C20_meb_le_bbox is the mathematical fact about an ideal minimum enclosing ball), UpdateBounds. *)
 From Coq Require Import List Permutation QArith Qcanon Lqa.
 From NiflyVerif Require Import XformModel XformProofs XformBounds.
@@ -157,6 +159,57 @@ Theorem C20_median_even_of_copies : forall (F : Type) (K : fops F), is_field K -
 Proof. exact median_even_of_copies. Qed.
 Print Assumptions C20_median_even_of_copies.
 
+(* ---- RotMatToVec's half-turn case (repair C20-rotmattovec-symmetric-half-turn): a vanishing skew
+   part means sin(angle) = 0, and the diagonal minus cosang is (1-c)/2 times the squared axis ---- *)
+Theorem C20_rotvec_skew_zero : forall (F : Type) (K : fops F), is_field K ->
+  forall (n : vec3 F) (c s : F), unit_vec K n -> fadd K (f1 K) (f1 K) <> f0 K ->
+  rot_axis_raw K (rodrigues K n c s) = v3_zero K -> s = f0 K.
+Proof. exact rotvec_skew_zero. Qed.
+Print Assumptions C20_rotvec_skew_zero.
+
+Theorem C20_rotvec_half_turn_sq : forall (F : Type) (K : fops F), is_field K ->
+  forall (n : vec3 F) (c s : F), unit_vec K n -> fadd K (f1 K) (f1 K) <> f0 K ->
+  half_turn_sq K (rodrigues K n c s) =
+  v3_scale K (V3 (fmul K (vx n) (vx n)) (fmul K (vy n) (vy n)) (fmul K (vz n) (vz n)))
+             (fdiv K (fsub K (f1 K) c) (fadd K (f1 K) (f1 K))).
+Proof. exact rotvec_half_turn_sq. Qed.
+Print Assumptions C20_rotvec_half_turn_sq.
+
+(* ---- CalcAverageRotation as REPAIRED (fix C20-average-rotation-overcorrects: sum2 / n): the average
+   of n >= 1 copies of r is r, whatever base B the first pass produced, provided B is orthonormal and
+   the rotation-vector round trip is exact on the rebased matrix B^T r.  m2v = RotMatToVec and
+   v2m = RotVecToMat are parameters (not modelled). ---- *)
+Theorem C20_avg_rotation_of_copies : forall (F : Type) (K : fops F), is_field K ->
+  forall (m2v : mat3 F -> vec3 F) (v2m : vec3 F -> mat3 F) (r : mat3 F) (n : nat),
+  n <> 0%nat -> fnat K n <> f0 K ->
+  let B := v2m (m2v r) in
+  m3_mul K B (m3_transpose B) = m3_id K ->
+  v2m (m2v (m3_mul K (m3_transpose B) r)) = m3_mul K (m3_transpose B) r ->
+  avg_rotation K m2v v2m (repeat r n) = r.
+Proof. exact avg_rotation_of_copies. Qed.
+Print Assumptions C20_avg_rotation_of_copies.
+
+(* the code before the repair returned B * v2m(n * offset) instead: the offset that should cancel the
+   error of the base was applied n times *)
+Theorem C20_avg_rotation_unrepaired_of_copies : forall (F : Type) (K : fops F), is_field K ->
+  forall (m2v : mat3 F -> vec3 F) (v2m : vec3 F -> mat3 F) (r : mat3 F) (n : nat),
+  n <> 0%nat -> fnat K n <> f0 K ->
+  let B := v2m (m2v r) in
+  avg_rotation_unrepaired K m2v v2m (repeat r n) =
+  m3_mul K B (v2m (v3_lscale K (fnat K n) (m2v (m3_mul K (m3_transpose B) r)))).
+Proof. exact avg_rotation_unrepaired_of_copies. Qed.
+Print Assumptions C20_avg_rotation_unrepaired_of_copies.
+
+Theorem C20_median_rotation_of_copies : forall (F : Type) (K : fops F), is_field K ->
+  forall (m2v : mat3 F -> vec3 F) (v2m : vec3 F -> mat3 F) (med : list F -> F) (r : mat3 F) (n : nat),
+  n <> 0%nat -> fnat K n <> f0 K -> (forall x, med (repeat x n) = x) ->
+  let B := v2m (m2v r) in
+  m3_mul K B (m3_transpose B) = m3_id K ->
+  v2m (m2v (m3_mul K (m3_transpose B) r)) = m3_mul K (m3_transpose B) r ->
+  median_rotation K m2v v2m med (repeat r n) = r.
+Proof. exact median_rotation_of_copies. Qed.
+Print Assumptions C20_median_rotation_of_copies.
+
 (* ---- bounding spheres: the ideal result (rationals, squared distances) ----
    the ball around the bounding-box centre with radius half the diagonal encloses every point ... *)
 Theorem C20_bbox_ball_encloses : forall (p0 : pt) (l : list pt),
@@ -224,4 +277,31 @@ Proof.
     pose proof (Qsquare_nonneg (x - 1)) as Sx. pose proof (Qsquare_nonneg y) as Sy.
     pose proof (Qsquare_nonneg z) as Sz.
     Lqa.lra.
+Qed.
+
+(* the hypotheses of C20_avg_rotation_of_copies are satisfiable with a non-trivial rotation: maps that
+   are exact on the data at hand (m2v tags a matrix by its first row, v2m returns the 3-4-5 rotation for
+   that tag and the identity otherwise) *)
+Definition ex_m2v (m : mat3 Qc) : vec3 Qc := V3 (r00 m) (r01 m) (r02 m).
+Definition ex_v2m (v : vec3 Qc) : mat3 Qc :=
+  if Qc_eq_dec (vx v) (ex_q 3 5) then ex_rot else m3_id QcOps.
+
+Example C20_avg_rotation_example :
+  ex_v2m (ex_m2v ex_rot) = ex_rot /\
+  m3_mul QcOps ex_rot (m3_transpose ex_rot) = m3_id QcOps /\
+  ex_v2m (ex_m2v (m3_mul QcOps (m3_transpose ex_rot) ex_rot)) = m3_mul QcOps (m3_transpose ex_rot) ex_rot /\
+  avg_rotation QcOps ex_m2v ex_v2m (repeat ex_rot 3) = ex_rot.
+Proof.
+  assert (HB : ex_v2m (ex_m2v ex_rot) = ex_rot).
+  { unfold ex_v2m, ex_m2v. cbn [vx]. destruct (Qc_eq_dec _ _) as [|N]; [reflexivity|].
+    exfalso; apply N; apply Qc_is_canon; reflexivity. }
+  destruct (rotvec_orthonormal Qc QcOps Qcft ex_axis (ex_q 3 5) (ex_q 4 5)) as [Ho [Ho' _]];
+    try (apply Qc_is_canon; reflexivity).
+  fold ex_rot in Ho, Ho'.
+  assert (Hrt : ex_v2m (ex_m2v (m3_mul QcOps (m3_transpose ex_rot) ex_rot)) = m3_mul QcOps (m3_transpose ex_rot) ex_rot).
+  { rewrite Ho'. unfold ex_v2m, ex_m2v. cbn [vx r00 m3_id]. destruct (Qc_eq_dec _ _) as [E|]; [|reflexivity].
+    exfalso. apply (f_equal this) in E. vm_compute in E. discriminate. }
+  repeat split; try assumption.
+  pose proof (avg_rotation_of_copies Qc QcOps Qcft ex_m2v ex_v2m ex_rot 3) as H.
+  cbv zeta in H. rewrite HB in H. apply H; try assumption; try discriminate.
 Qed.
